@@ -9,7 +9,7 @@ CHECKS = {
  "C05": dict(
    category="model_checking", engine="A explicit-state product + B small-scope strings",
    technique="explicit-state BFS of the product (real scanner x reference PDA) with validated state merging; exhaustive string enumeration",
-   text="All reachable product states of the real JSON scanner (driven byte-wise through a verif hook) and a reference RFC 8259 pushdown automaton are enumerated for nesting <= 4 (quick) / 6 (thorough) in both modes; in each state the public Document.Check verdict of the state's shortest history must equal the reference verdict, so acceptance is decided for strings of any length within the nesting bound. State merging is validated by recomputing successors of merged histories. In addition every string of <= 5 (6) symbols over the 30-class alphabet is compared three ways, and every single-symbol edit and truncation of a corpus of structured long texts (deep nesting, 4 KiB strings, long numerals).",
+   text="All reachable product states of the real JSON scanner (driven byte-wise through a verif hook) and a reference RFC 8259 pushdown automaton are enumerated for nesting <= 4 (quick) / 6 (thorough) in both modes; in each state the public Document.Check verdict of the state's shortest history must equal the reference verdict, so acceptance is decided for strings of any length within the nesting bound. State merging is validated by recomputing successors of merged histories. In addition every string of <= 5 (6) symbols over the 30-class alphabet is compared three ways, and every single-symbol edit and truncation of a corpus of structured long texts (deep nesting, 4 KiB strings, long numerals). Every product-state text and byte-sweep text is also checked on documents with a history (after a first Check, after Len, after 1, 2, 3, 5 lexemes read with NextLexeme): the verdict must not depend on it; containers of n copies of 12 units for n in 1..10 and around every power of two up to 256, 300, 1000.",
    note="Trusted: the reference PDA (cross-checked against encoding/json on every enumerated string), the hook's control key being a bisimulation (checked on merges). Not asserted: invalid UTF-8; in trailing mode inputs where maximal munch of a top-level number has two readings.",
    design="4/C05"),
 }
@@ -17,7 +17,7 @@ CHECKS = {
 CHECKS["C19"] = dict(
    category="model_checking", engine="A explicit-state over the real maps + C controlled scheduler for the concurrent clause",
    technique="explicit-state BFS to a fixpoint of canonical heap states of the real generated maps, reference insertion-ordered map as oracle",
-   text="Breadth-first search over ALL operation sequences of the 19-operation alphabet (3 keys, 2 values, 4 predicates, failing Map callback) on the real ASTNodes, RuleASTNodes (zero value, New..., Make...) and Constraints objects until no new canonical state (order backing array incl. stale tail, len, data) appears; this covers histories of any length, not only 6. Every observer and every callback visit log is compared with a 30-line reference map in every state; merges are validated by recomputing successors. Concurrent clause (merged from the scheduler variant): all 4-tuples (2 threads x 2 ops) and triples (3 x 1) over a 10-operation alphabet (incl. MarshalJSON) on the three real maps from two initial states, ALL interleavings at lock points, each history checked for linearizability by brute force and by the race detector as per-execution monitor.",
+   text="Breadth-first search over ALL operation sequences of the 19-operation alphabet (3 keys, 2 values, 4 predicates, failing Map callback) on the real ASTNodes, RuleASTNodes (zero value, New..., Make...) and Constraints objects until no new canonical state (order backing array incl. stale tail, len, data) appears; this covers histories of any length, not only 6. Every observer and every callback visit log is compared with a 30-line reference map in every state; merges are validated by recomputing successors. Concurrent clause (merged from the scheduler variant): all 4-tuples (2 threads x 2 ops) and triples (3 x 1) over a 12-operation alphabet (incl. MarshalJSON, Find, Has) on the three real maps from two initial states, ALL interleavings at lock points, each history checked for linearizability by brute force and by the race detector as per-execution monitor.",
    note="Trusted: the reference map; the state key is validated as a bisimulation on every merge. Map's behaviour on callback error (earlier entries stay updated) is taken from the generated code's documented contract.",
    design="4/C19")
 CHECKS["C10"] = dict(
@@ -36,14 +36,14 @@ CHECKS["C17"] = dict(
 CHECKS["C01"] = dict(
    category="exploration", engine="B small-scope enumeration with reference shape matcher",
    technique="exhaustive small-scope enumeration of (schema, config, document) triples against a three-valued reference validator; greedy counterexample reduction",
-   text="All rule-free schemas with <= 3 (thorough 4) nodes and every legal flag assignment x all documents with <= 3 (4) nodes (<= 4 (5) for schemas up to 2 nodes) in every key order x both key-optionality configurations, plus depth-5 spines with all documents within 2 structural edits of the example; the library verdict must equal the reference shape matcher, and optional-by-default must equal default with every unmarked key marked optional.",
+   text="All rule-free schemas with <= 3 (thorough 4) nodes and every legal flag assignment x all documents with <= 3 (4) nodes (<= 4 (5) for schemas up to 2 nodes) in every key order x both key-optionality configurations, plus depth-5 spines with all documents within 2 structural edits of the example; the library verdict must equal the reference shape matcher, and optional-by-default must equal default with every unmarked key marked optional. A further family places a type-any position before/after siblings in 7 contexts and fills it with 16 nested values (arrays of 0..3 items, arrays in arrays, objects holding arrays) crossed with every variation of the nodes that follow it.",
    note="Trusted: the reference validator ref/refv (written from the statement, stdlib only). Not asserted: duplicate keys, numerals other than 1 / 1.5.",
    design="4/C01")
 
 CHECKS["C02"] = dict(
    category="exploration", engine="B small-scope enumeration with reference rule semantics",
    technique="exhaustive enumeration of rule sets x parameter variants x examples x boundary probes against a three-valued reference (math/big, regexp, calendar)",
-   text="For every scalar kind, all rule sets of up to 5 (thorough 7) distinct rule names with all parameter variants from boundary sets, for every example candidate that satisfies them, validated against probe values on, just inside and just outside every bound, alternative numeral spellings, escaped strings, exhaustive date grids, datetime field boundaries, uuid shapes and curated email/uri lists, and every other JSON kind; the verdict must equal the reference rule semantics. Second family: every ordered pair of annotated scalar slots as sibling properties and sibling array items, validated against every combination of (good | each rule-breaking value) for both siblings.",
+   text="For every scalar kind, all rule sets of up to 5 (thorough 7) distinct rule names with all parameter variants from boundary sets, for every example candidate that satisfies them, validated against probe values on, just inside and just outside every bound, alternative numeral spellings, escaped strings, exhaustive date grids, datetime field boundaries, uuid shapes and curated email/uri lists, and every other JSON kind; the verdict must equal the reference rule semantics. Second family: every ordered pair of annotated scalar slots as sibling properties and sibling array items, validated against every combination of (good | each rule-breaking value) for both siblings. String probes include values that carry escaped quotes at both ends.",
    note="Trusted: ref/refv + ref/decimal. Not asserted: non-ASCII string lengths, alternative spellings for const/enum, RFC 3339 corners left to the Go standard library, email/uri beyond curated lists.",
    design="4/C02")
 
@@ -64,21 +64,21 @@ CHECKS["C04"] = dict(
 CHECKS["C14"] = dict(
    category="exploration", engine="B small-scope enumeration of texts x separators x trailing texts",
    technique="exhaustive product of accepted texts x separators x directive-like trailing texts; every truncation classified by the reference PDA",
-   text="Every accepted text of a corpus built from all rule-free JS-core renderings <= 3 (4) nodes in two layouts, annotated and noted variants ending in every token class, type shortcuts, enum texts and every regex token with a body <= 4 symbols over {a, \\, /, .} (acceptance decided by the reference; a rejected corpus text is a violation), followed by each of 9 separators and 11 trailing texts admitted by the statement: Len must be exactly len(S) for schema, JSON document (trailing characters allowed), enum and regex roles, on fresh objects and on objects used before (after Check/GetAST/Values/Pattern, after the document stream was read to its end); every lexically incomplete truncation must make Len fail.",
+   text="Every accepted text of a corpus built from all rule-free JS-core renderings <= 3 (4) nodes in two layouts, annotated and noted variants ending in every token class, type shortcuts, enum texts and every regex token with a body <= 4 symbols over {a, \\, /, .} (acceptance decided by the reference; a rejected corpus text is a violation), followed by each of 9 separators and 11 trailing texts admitted by the statement: Len must be exactly len(S) for schema, JSON document (trailing characters allowed), enum and regex roles, on fresh objects and on objects used before (after Check/GetAST/Values/Pattern, after the document stream was read to its end); every lexically incomplete truncation must make Len fail. Separators are no blank and EVERY run of 1..3 blanks over {space, tab, LF, CRLF}.",
    note="Trusted: reference PDA for incompleteness. Not generated: trailing text that could continue S; blank-only inputs.",
    design="4/C14")
 
 CHECKS["C06"] = dict(
    category="exploration", engine="B exhaustive strings/values x whitespace placements, reference tokenizer, cross-scanner differential",
    technique="exhaustive enumeration of valid JSON texts (all strings <= 5/6 symbols; all values <= 4/5 nodes x all placements of <= 2/3 whitespace gaps; depth-8 families; every escape form in values and keys) with an event-automaton oracle and a three-scanner differential",
-   text="For every enumerated valid JSON text the public NextLexeme stream (of a fresh document and of one on which Len or Check ran before) is replayed through an event automaton that checks nesting, termination by io.EOF, spans inside the input, literal/key spans equal to the reference tokenizer's, container spans bracket to bracket, and that the value rebuilt from events alone equals the reference parse; the schema scanner and (for arrays of scalars) the enum scanner, driven through verif hooks on the same text in four embeddings, must produce the same (type, begin, end) sequence modulo new-line events; for pairs of small documents read in turns, ALL merges of the two NextLexeme call sequences must deliver each document's own events.",
+   text="For every enumerated valid JSON text the public NextLexeme stream (of a fresh document and of one on which Len or Check ran before) is replayed through an event automaton that checks nesting, termination by io.EOF, spans inside the input, literal/key spans equal to the reference tokenizer's, container spans bracket to bracket, and that the value rebuilt from events alone equals the reference parse; the schema scanner and (for arrays of scalars) the enum scanner, driven through verif hooks on the same text in four embeddings, must produce the same (type, begin, end) sequence modulo new-line events; for pairs of small documents read in turns, ALL merges of the two NextLexeme call sequences must deliver each document's own events. Containers of n copies of each of 12 units (empty and one-item containers, scalars) for n in 1..10 and around every power of two up to 256, 300 and 1000.",
    note="Trusted: ref/jsonpda tokenizer/parser (cross-checked against encoding/json on every input). Exponent numerals are excluded from the cross-scanner relation.",
    design="4/C06")
 
 CHECKS["C18"] = dict(
    category="exploration", engine="B small-scope enumeration, named-vs-inline differential",
    technique="exhaustive enumeration of enum value lists x layouts and of all compilable regex sources up to 4/5 symbols; metamorphic named == inline == regexp",
-   text="All enum value lists of <= 3 (4) items over 10 literals (duplicates, a string spelling a float, escapes) in 9 layouts (incl. empty comments): the named rule and the inline list must give identical verdicts on 14 probes, duplicates must make the rule's Check fail, Values()/GetAST() must list the literals in source order; one rule object referenced twice in a schema and added to a second schema must behave like the inline list and be unchanged afterwards. All strings <= 4 (5) over a 16-symbol regex alphabet that regexp.Compile accepts: the regex type, the inline {regex} rule and regexp.MatchString must agree on all 156 probe strings <= 3 over {a,b,/,\",\\}; Example() matches the pattern; Len equals the /P/ token length with trailing text.",
+   text="All enum value lists of <= 3 (4) items over 10 literals (duplicates, a string spelling a float, escapes) in 9 layouts (incl. empty comments): the named rule and the inline list must give identical verdicts on 14 probes, duplicates must make the rule's Check fail, Values()/GetAST() must list the literals in source order; one rule object referenced twice in a schema and added to a second schema must behave like the inline list and be unchanged afterwards. All strings <= 4 (5) over a 16-symbol regex alphabet that regexp.Compile accepts: the regex type, the inline {regex} rule and regexp.MatchString must agree on all 156 probe strings <= 3 over {a,b,/,\",\\}; Example() matches the pattern; Len equals the /P/ token length with trailing text. Enum literals include floats with zero digits in the fraction (1.50, 20.05, -0.100).",
    note="Trusted: Go regexp. The third-party example generator ignores anchors, so 'Example matches P' is asserted only for patterns without inner anchors.",
    design="4/C18")
 
@@ -92,7 +92,7 @@ CHECKS["C09"] = dict(
 CHECKS["C03"] = dict(
    category="exploration", engine="B small-scope enumeration of type environments x root constructs x documents",
    technique="exhaustive enumeration of four construct families (type references/or, allOf, additionalProperties, key shortcuts) x all small documents against a three-valued set-semantics reference, plus union differential",
-   text="All ordered pairs of user types from a 10-body pool plus a derived third type (alias, or, nullable alias, nullable or-alias) x 15 root constructs (also rule-sets with nullable next to a type reference) x nullable x 6 positions x all documents <= 3 nodes (all arrays <= 3 elements for array positions); 9 allOf configurations x 4 additionalProperties settings x both configs x all 1024 objects over 5 keys; 13 additionalProperties settings x shapes x 150 objects; 5 key types x optionality x layouts x all objects with <= 3 members over 6 keys. The library verdict must equal the reference union/conjunction semantics and verdict(@A|@B) must equal verdict(@A) or verdict(@B).",
+   text="All ordered pairs of user types from a 10-body pool plus a derived third type (alias, or, nullable alias, nullable or-alias) x 15 root constructs (also rule-sets with nullable next to a type reference) x nullable x 6 positions x all documents <= 3 nodes (all arrays <= 3 elements for array positions); 9 allOf configurations x 4 additionalProperties settings x both configs x all 1024 objects over 5 keys; 13 additionalProperties settings x shapes x 150 objects; 5 key types x optionality x layouts x all objects with <= 3 members over 6 keys. The library verdict must equal the reference union/conjunction semantics and verdict(@A|@B) must equal verdict(@A) or verdict(@B). Nested extension: an extending object owning (directly, as array item, two levels down, through a user type or an heir) a property whose object extends types itself, 5 inner bodies x 7 shapes x all member combinations.",
    note="Trusted: ref/refv. Unspecified (counted in the evidence): cardinality/precedence of shortcut matches, presence of non-optional shortcut entries, rule-less key types, integer under additionalProperties float.",
    design="4/C03")
 
@@ -106,7 +106,7 @@ CHECKS["C15"] = dict(
 CHECKS["C16"] = dict(
    category="exploration", engine="B small-scope enumeration over the merged schema corpus with an expected-AST model",
    technique="exhaustive enumeration of generated schemas; structural equality of GetAST with the AST computed from the generator's abstract schema",
-   text="For every Check-accepted case of the merged generators plus an AST-specific family covering every rule name, notes, nested or/enum/allOf items, decimal/precision, value/key shortcuts with manual rules: the tree returned by GetAST (keys, shortcut flags, token kinds, literal values, schema types by the documented precedence, rules with names/values/order/nested items and manual/generated marks, notes) must equal the model tree, for the canonical spelling and for the same schema aligned with tabs; inherited allOf properties must be absent.",
+   text="For every Check-accepted case of the merged generators plus an AST-specific family covering every rule name, notes, nested or/enum/allOf items, decimal/precision, value/key shortcuts with manual rules: the tree returned by GetAST (keys, shortcut flags, token kinds, literal values, schema types by the documented precedence, rules with names/values/order/nested items and manual/generated marks, notes) must equal the model tree, for the canonical spelling and for the same schema aligned with tabs; inherited allOf properties must be absent. Shortcuts that also carry a written or rule of JSON types are in the family (the synthesised type rule must stay marked generated).",
    note="Trusted: ref/astmodel, whose naming conventions are calibrated on the pinned tree (the statement fixes what must be present, not the spelling of token types).",
    design="4/C16")
 
@@ -127,14 +127,14 @@ CHECKS["C07"] = dict(
 CHECKS["C12"] = dict(
    category="model_checking", engine="C controlled scheduler (sync shim injected by go-build overlay) + race detector as per-execution monitor",
    technique="stateless model checking of the real library: exhaustive DFS over thread schedules with a preemption bound at every sync.Once/Mutex/RWMutex/Pool operation, plus exhaustive pool-answer deviations; sequential-result oracle and happens-before race monitor on every execution",
-   text="60 closed scenarios (first use of an uncompiled shared schema by 2 threads for every pair of 7 operations and by 3 threads, 2 threads x 2 operations, 3 threads on a compiled schema, two roots sharing an added type, shared validation next to a private compile+Example, enum/regex first use, 2 and 3 goroutines each creating/compiling/using private schemas) are executed under a cooperative scheduler injected into the library by a build overlay; ALL interleavings with <= 2 preemptions (light 2-thread scenarios; 1 for scenarios containing a whole compilation or 3 threads; thorough +1) and ALL pool-answer deviations <= 2 are explored; in every execution every call must return its sequential result, every Once body must run once, no deadlock/livelock may occur and the race detector (which sees no happens-before edge from the scheduler's norace hand-off) must stay silent.",
+   text="60 closed scenarios (first use of an uncompiled shared schema by 2 threads for every pair of 7 operations and by 3 threads, 2 threads x 2 operations, 3 threads on a compiled schema, two roots sharing an added type, shared validation next to a private compile+Example, enum/regex first use, 2 and 3 goroutines each creating/compiling/using private schemas) are executed under a cooperative scheduler injected into the library by a build overlay; ALL interleavings with <= 2 preemptions (light 2-thread scenarios; 1 for scenarios containing a whole compilation or 3 threads; thorough +1) and ALL pool-answer deviations <= 2 are explored; in every execution every call must return its sequential result, every Once body must run once, no deadlock/livelock may occur and the race detector (which sees no happens-before edge from the scheduler's norace hand-off) must stay silent. S3b repeats S3 with a shared added type made of ruled literals only (none of the recorded S3 findings can cover it).",
    note="Trusted: the shim scheduler (replay of a schedule is checked for divergence), the Go race detector. 2-3 goroutines, bounded preemptions. Known finding: roots sharing an added type that uses allOf corrupt it when compiled concurrently.",
    design="4/C12")
 
 CHECKS["C11"] = dict(
    category="model_checking", engine="A/D exhaustive operation histories on live objects + environment-choice exploration (pool answers, map iteration orders) through the build overlay",
    technique="exhaustive enumeration of all operation histories up to depth 3/4 over a pool of live objects against fresh-object results with returned-value snapshots; exhaustive single (thorough: double) deviations of every sync.Pool answer and of every dynamic range-over-map order",
-   text="All histories of <= 3 (thorough 4) operations from a 59-operation alphabet over live Schema/Document/Enum/Regex objects (incl. lexically broken schema and enum rule, an enum rule object shared with the schema that uses it, an embedded document with trailing text, Validate / NextLexeme on live document objects and Len/Check on consumed ones) (plus 12-fold repetitions and round-robins): every result must equal the fresh-object result and every value handed out must be unchanged at the end; for histories <= 2 every pool answer is additionally deviated (fresh / oldest object); ALL merges of the NextLexeme call sequences of two live documents must deliver each document's own events. The library is built through an overlay that rewrites every range-over-map into iteration over an explicitly ordered key list: for a corpus of scenarios (a fixed slice of the C03/C09 generators in quick, all in thorough; multi-shortcut objects, allOf chains, errors located inside added types and allOf parents) every single (thorough: pair of) dynamic iteration order deviation (descending, rotations) must leave verdict, code, position, file and renderability of errors, AST, example and used types unchanged; static sites never reached with two keys are reported as uncovered.",
+   text="All histories of <= 3 (thorough 4) operations from a 59-operation alphabet over live Schema/Document/Enum/Regex objects (incl. lexically broken schema and enum rule, an enum rule object shared with the schema that uses it, an embedded document with trailing text, Validate / NextLexeme on live document objects and Len/Check on consumed ones) (plus 12-fold repetitions and round-robins): every result must equal the fresh-object result and every value handed out must be unchanged at the end; for histories <= 2 every pool answer is additionally deviated (fresh / oldest object); ALL merges of the NextLexeme call sequences of two live documents must deliver each document's own events. The library is built through an overlay that rewrites every range-over-map into iteration over an explicitly ordered key list: for a corpus of scenarios (a fixed slice of the C03/C09 generators in quick, all in thorough; multi-shortcut objects, allOf chains, errors located inside added types and allOf parents) every single (thorough: pair of) dynamic iteration order deviation (descending, rotations) must leave verdict, code, position, file and renderability of errors, AST, example and used types unchanged; static sites never reached with two keys are reported as uncovered. A third alphabet: a type object that extends @base used alone (where every call fails) and through a schema that knows both.",
    note="Trusted: the overlay rewrite (sound: every produced order is a legal Go order). Message text is not compared. Consumed Document objects are not re-validated.",
    design="4/C11")
 
